@@ -72,8 +72,10 @@ def loop_with_break_inside_loop(d):
 
 
 @rule
-def rejected_jobs_exit_the_final_loop_normally(d, jobs):
+def rejected_jobs_exit_the_final_loop_normally(d, jobs, ctx):
     """every rejected job ends with an event that is not the last event of a long break branch of the final loop"""
+    if jobs is None:
+        return False
     tails = {b[-1][1] for b in _break_branches(d[1][-1]) if len(b) >= 2 and b[-1][0] == "ev"}
     for job in jobs:
         ids_with_succ = {p for _i, _t, pv in job for p in pv}
@@ -81,3 +83,15 @@ def rejected_jobs_exit_the_final_loop_normally(d, jobs):
         if sinks & tails:
             return False
     return True
+
+
+def _count(n, kind):
+    return sum(1 for m in _walk(n) if m[0] == kind)
+
+
+@rule
+def unmerged_fork_tail_duplicated(d, jobs, ctx):
+    """every failing learned diagram left a fork unmerged: the continuation was copied into the branches and each copy
+    ends in a detach the source does not have (ctx["learned"]: the learned ASTs of all failing variants)"""
+    learned = ctx.get("learned") or []
+    return bool(learned) and all(_count(a, "detach") > _count(d, "detach") for a in learned)
